@@ -1,5 +1,5 @@
 """C02 - Refused requests change nothing; accepted requests are sent exactly once."""
-from ..common import SubCheck
+from ..common import SubCheck, Violation, run_given
 from ..machine import SimWorld, replay_trace
 from . import _machines as M
 
@@ -214,14 +214,63 @@ def sub_betdaq(col, budget, seed, tier, shard, nshards):
     run_given(col, betdaq_case(), check_betdaq, budget, seed, tier, "betdaq")
 
 
+# ---- whole runs, single-market and event-grouped: every accepted request reaches the (simulated) exchange once ----
+
+
+def check_delivery(sc):
+    """Scenarios of the C07 generator (1-3 markets, event-grouped with interleaved publish times, requests on other
+    markets of the event, all latencies).  Every package the framework created for an accepted request is executed
+    exactly once, unless its market has no later update than its latency (+ bet delay) - then it is still queued."""
+    from .. import simlab
+    from ..common import crash_violation
+
+    lb = simlab.run_scenario(sc, snapshots=False)
+    if lb.error is not None:
+        raise crash_violation(lb.error, sc, "run-aborted")
+    classes = set()
+    nt = False
+    import datetime as dt
+
+    epoch = dt.datetime(1970, 1, 1)
+    last_pt = {m["id"]: lb.renderers[i].updates[-1].pt for i, m in enumerate(sc["markets"])}
+    for pk in lb.packages:
+        n = sum(1 for x in lb.executed if x is pk)
+        if n > 1:
+            raise Violation("accepted-request-not-sent-once", (pk.package_type.name, "executed-%d-times" % n),
+                            "a %s package of market %s was executed %d times" % (pk.package_type.name, pk.market_id, n), sc)
+        if n == 0:
+            # legitimate only when the recording of its market ends before the request could take effect
+            made = (pk.date_time_created - epoch).total_seconds() * 1000
+            due = made + float(pk.simulated_delay) * 1000
+            if last_pt[pk.market_id] > due + 1e-6:
+                raise Violation("accepted-request-not-sent-once", (pk.package_type.name, "lost"),
+                                "a %s package of market %s (orders %s) made at %d, due after %d, was never executed although the market has an update at %d" % (
+                                    pk.package_type.name, pk.market_id, [o.status.name if o.status else None for o in pk._orders], made, due, last_pt[pk.market_id]), sc)
+            classes.add("recording-ended-before-the-request-was-due")
+    if lb.packages:
+        classes.add("packages")
+        if sc.get("event_processing") and len(sc["markets"]) > 1:
+            nt = True
+            classes.add("event-grouped")
+    return nt, classes
+
+
+def sub_delivery(col, budget, seed, tier, shard, nshards):
+    from . import c07
+
+    run_given(col, c07.scenario(tier), check_delivery, budget, seed, tier, "delivery")
+
+
 def subchecks(tier):
     q = tier == "quick"
     return [SubCheck("requests", sub_machine, 1400 if q else 40000), SubCheck("bulk", sub_bulk, 160 if q else 4000),
-            SubCheck("betdaq", sub_betdaq, 400 if q else 8000)]
+            SubCheck("betdaq", sub_betdaq, 400 if q else 8000), SubCheck("delivery", sub_delivery, 800 if q else 30000)]
 
 
 def replay(case, sub=None):
     if isinstance(case, dict) and "n_place" in case:
         check_betdaq(case)
+    elif isinstance(case, dict) and "markets" in case:
+        check_delivery(case)
     else:
         replay_trace(SimWorld, CHECKS, case)
